@@ -121,6 +121,24 @@ def runLoads (T : Table) (D : Layer) : List (Layer × Layer) → Layer
 def save (T : Table) (c : String → String) : Layer :=
   (T.fields.filter (fun f => f.yaml ≠ "-")).map fun f => (f.yaml, c f.go)
 
+/-- one step of a history through ONE command (its command line is fixed for the whole history):
+the configuration file is replaced - by hand (`load file`) or by `SaveAsYaml c` (`saveLoad c`) -
+and `Load` is called through that command -/
+inductive HistOp where
+  | load (file : Layer)
+  | saveLoad (c : String → String)
+
+/-- the file `Load` finds at that step -/
+def HistOp.file (T : Table) : HistOp → Layer
+  | .load file => file
+  | .saveLoad c => save T c
+
+/-- what a history of load / save→load steps through one command with command line `args` leaves
+behind (the only thing a `Load` of the model leaves behind is what it decoded into memory shared
+with `DefaultConfig`; in particular it does not change the command) -/
+def runHistory (T : Table) (D : Layer) (args : Layer) (ops : List HistOp) : Layer :=
+  runLoads T D (ops.map fun o => (args, o.file T))
+
 /-- the fields a flag reaches according to the model: those decoded from the key it binds -/
 def reached (T : Table) (fl : Flag) : List String :=
   (T.fields.filter (fun f => f.ms = fl.key)).map (·.go)
